@@ -742,6 +742,67 @@ func genCfg(rt *rapid.T) idl.Cfg {
 	return c
 }
 
+// farContainerLiteral: some constant or default is a list/map literal with an
+// identifier in it whose declared type is a typedef of a container written in
+// another file.  The Go backend refuses such a program ("a literal of the
+// typedef'd container ... defined in another file must not contain
+// identifiers"); whether it may is C04's question, here such programs are only
+// redrawn so that fewer cases end as "rejected" (an approximation: it costs
+// nothing when it is wrong in either direction).
+func farContainerLiteral(files []*idl.File) bool {
+	var hasIdent func(v *idl.Value) bool
+	hasIdent = func(v *idl.Value) bool {
+		if v == nil {
+			return false
+		}
+		if v.Kind == idl.VIdent && !v.IsBoolKw {
+			return true
+		}
+		for i, e := range v.List {
+			if hasIdent(e) || (v.Kind == idl.VMap && i < len(v.Keys) && hasIdent(v.Keys[i])) {
+				return true
+			}
+		}
+		return false
+	}
+	var bad func(from *idl.File, t *idl.Type, v *idl.Value) bool
+	bad = func(from *idl.File, t *idl.Type, v *idl.Value) bool {
+		if t == nil || v == nil || (v.Kind != idl.VList && v.Kind != idl.VMap) {
+			return false
+		}
+		at := from
+		for t.Ref != nil && t.Ref.Kind == idl.KTypedef {
+			at = t.Ref.File
+			t = t.Ref.Type
+		}
+		if t.Ref != nil {
+			return false // a struct literal
+		}
+		if at != from && hasIdent(v) {
+			return true
+		}
+		for i, e := range v.List {
+			if bad(at, t.Elem, e) || (v.Kind == idl.VMap && i < len(v.Keys) && bad(at, t.Key, v.Keys[i])) {
+				return true
+			}
+		}
+		return false
+	}
+	for _, f := range files {
+		for _, d := range f.Defs {
+			if d.Kind == idl.KConst && bad(f, d.Type, d.Value) {
+				return true
+			}
+			for _, fl := range d.Fields {
+				if bad(f, fl.Type, fl.Default) {
+					return true
+				}
+			}
+		}
+	}
+	return false
+}
+
 func goPkgDir(f *idl.File) string {
 	for _, ns := range f.Namespaces {
 		if ns.Lang == "go" {
@@ -761,7 +822,7 @@ func genGenerated(rt *rapid.T) (c genCase, s shape, p *idl.Program, opts []strin
 	// a program with a single reachable file is redrawn (up to three times)
 	for tries := 0; tries < 4; tries++ {
 		p = idl.Gen(rt, cfg)
-		if len(reachable(p)) >= 2 {
+		if fs := reachable(p); len(fs) >= 2 && !farContainerLiteral(fs) {
 			break
 		}
 	}
